@@ -1,10 +1,10 @@
 SPECIFICATION SpecQS
 CONSTANTS
-  NT = 6
-  MaxKids = 3
+  NT = 5
+  MaxKids = 2
   W = 3
-  MaxRoots = 3
-  WithBad = TRUE
+  MaxRoots = 1
+  WithBad = FALSE
   Twin = "none"
   Record = TRUE
 INVARIANTS
